@@ -33,6 +33,25 @@ CLAIMS = {
               "stores with and without the flag; the implementation is swept in interpreter and JIT mode (bit-identity, "
               "norms, array layout). Direction clauses (20 degrees, finite differences, zero only at the source) are "
               "measured, not proved. Known finding: the compiled 3D build is not bit-identical (fast-math contraction).")),
+    "C14": dict(
+        category="proof", design_ref="DESIGN.md §8 C14",
+        technique="Lean 4 theorems over the reals about the model of _interp2d/_interp3d (searchsorted cell lookup + separable weights) + bit-exact kernel correspondence over all boundary classes + SciPy oracle",
+        text=("Proved over the reals for all strictly increasing axes, value fields and query points of the closed hull: "
+              "the 2D/3D result is the separable-weights combination of the grid values around the query (weights >= 0, "
+              "sum 1, synthesised neighbours weight 0) - all 3^d boundary classes at once; 2D corollaries: node value at "
+              "nodes, bounds by the weighted corners, exact reproduction of bilinear functions; fill value outside/NaN "
+              "for every scalar type. Tied to the code by bit-level correspondence of the kernels on every boundary "
+              "class; the public API is compared with SciPy's RegularGridInterpolator, node values, multilinear "
+              "fields, cell bounds, single vs list, in interpreter and JIT mode.")),
+    "C09": dict(
+        category="proof", design_ref="DESIGN.md §8 C09",
+        technique="Lean 4 theorems over the reals about the model of _vinterp2d/_vinterp3d + bit-exact kernel correspondence over all boundary/source classes + analytic oracle",
+        text=("Proved: fill value outside the hull/NaN, vzero*distance in the source cell, exactly 0 at the source (2D "
+              "and 3D); for 2D additionally the weights form distance / (convex combination of the corners' apparent "
+              "velocities) with zero weight on synthesised neighbours, the zero-time-corner fallback, exactness for "
+              "homogeneous node times and the node value at nodes. The 3D weights form is tied by bit-exact "
+              "correspondence on all 27 classes and checked by the oracle (bounds, homogeneous exactness, nodes, "
+              "source cell) on TraveltimeGrid objects in interpreter and JIT mode.")),
 }
 
 WIP = "check not registered yet in this revision (model/theorems under construction); see DESIGN.md §8"
